@@ -308,7 +308,9 @@ func c09Strata() []*gast.Grammar {
 		mk(r("S", gast.S(gast.Star(gast.S(gast.Ref("Item"), gast.Opt(gast.L(";")))), gast.Star(gast.Dot()))),
 			r("Item", gast.Rec(act(gast.S(gast.Lab("k", gast.Ref("W")), gast.L("="), gast.Lab("v", gast.C(gast.Plus(gast.Cl(gast.Chars("01"))), gast.Thr("L1")))), 1), gast.Ref("W"), "L1")),
 			r("W", gast.Star(gast.Cl(gast.Chars("ab"))))),
-		// leaf rule shared by two hosts, next to literals
+		// a non-last alternative that can match the empty string and can also fail (blanks, then a lookahead)
+		mk(r("S", gast.Star(gast.S(gast.C(gast.S(gast.Star(gast.L(" ")), gast.AndE(gast.L("]"))), gast.S(gast.Lab("k", gast.NotE(gast.L("x")))), gast.L("x")), gast.Dot())))),
+		mk(r("S", gast.Star(gast.C(gast.S(gast.C(gast.Ref("G"), gast.L("y")), gast.Dot()), gast.L("]")))), r("G", gast.S(gast.Opt(gast.L("a")), gast.NotE(gast.L("]")), gast.Ref("H"))), r("H", gast.Opt(gast.L("b")))),
 		mk(r("S", gast.C(gast.Ref("R1"), gast.Ref("R2"))), r("R1", gast.S(gast.Ref("L"), gast.L("b"))), r("R2", gast.S(gast.Ref("L"), gast.L("c"))), r("L", gast.L("a"))),
 		// inverted classes side by side
 		mk(r("S", gast.S(gast.C(inv("ab"), inv("cd")), gast.NotE(gast.Dot())))),
